@@ -1,0 +1,7 @@
+//go:build !verif
+
+package rewriter
+
+// verifStage1Done is a verification hook (build tag "verif").
+// Without the tag it is an empty no-op.
+func verifStage1Done(string) {}
